@@ -497,3 +497,91 @@ outer:
 	acc = h(acc, uint64(min(3, 1, 2))+uint64(max(3, 1, 2))<<8)
 	vs.Emit("misc", acc)
 }
+
+// Self_threads: goroutines that block on channels, a mutex and a WaitGroup, with a deterministic
+// outcome whatever the schedule (so native and engine agree).
+func Self_threads() {
+	var acc uint64 = 7
+	done := make(chan struct{})
+	res := make(chan uint64, 4)
+	var flag atomic.Bool
+	go func() {
+		<-done // parked until closed
+		flag.Store(true)
+		res <- 11
+	}()
+	var wg sync.WaitGroup
+	var mu sync.Mutex
+	total := 0
+	for i := 1; i <= 3; i++ {
+		wg.Add(1)
+		go func(k int) {
+			defer wg.Done()
+			mu.Lock()
+			total += k
+			mu.Unlock()
+		}(i)
+	}
+	wg.Wait()
+	acc = h(acc, uint64(total))
+	if flag.Load() {
+		acc = h(acc, 999) // must not happen: done not closed yet
+	}
+	close(done)
+	acc = h(acc, <-res)
+	if flag.Load() {
+		acc = h(acc, 5)
+	}
+	// ping-pong over unbuffered channels
+	ping, pong := make(chan int), make(chan int)
+	go func() {
+		for v := range ping {
+			pong <- v * 2
+		}
+		close(pong)
+	}()
+	for i := 1; i <= 3; i++ {
+		ping <- i
+		acc = h(acc, uint64(<-pong))
+	}
+	close(ping)
+	_, ok := <-pong
+	if !ok {
+		acc = h(acc, 77)
+	}
+	vs.Emit("threads", acc)
+}
+
+// Verif_Self_lost_update: two goroutines increment a counter with a separate atomic load and
+// store. With one preemption allowed the lost update must be found (the engine's schedule
+// exploration is validated by this expected violation); with none it must not.
+func Verif_Self_lost_update() {
+	vs.Schedules(vs.Choice("preemptions", 2))
+	var c atomic.Int64
+	inc := func() {
+		v := c.Load()
+		c.Store(v + 1)
+	}
+	go inc()
+	go inc()
+	vs.Join()
+	vs.Assert("both increments counted", c.Load() == 2)
+}
+
+// Verif_Self_cas_ok: the same with a CAS loop is correct under every schedule with <=2 preemptions.
+func Verif_Self_cas_ok() {
+	vs.Schedules(2)
+	var c atomic.Int64
+	inc := func() {
+		for {
+			v := c.Load()
+			if c.CompareAndSwap(v, v+1) {
+				return
+			}
+		}
+	}
+	go inc()
+	go inc()
+	vs.Join()
+	vs.Assert("both increments counted", c.Load() == 2)
+}
